@@ -57,6 +57,35 @@ PROPS = {
         "technique": TECH, "design_ref": "DESIGN.md §7 C01",
         "assumptions": ["deterministic body", "sequential use (interleavings: C18)"],
     },
+    "C02": {
+        "lean_modules": ["Cachelito.Props.C02"],
+        "streams": [lines_stream("keys_diff", "keys", ["{seed}", "{n}", "{n}"], 60, 1000,
+                                 "keys: typed random argument tuples of 27 signature shapes (adversarial strings with separators, quotes, backslashes, control/combining/astral chars; ints incl. min/max; nested Option/Vec/tuple; methods with struct/enum receivers) rendered by the REAL to_cache_key / format!({:?}) and by real #[cache] / #[cache_async] functions (keys observed through invalidate_with) vs Keys.keyOf; pairs of DIFFERENT tuples biased to boundary moves must get different real keys", r"^[KP]\|")],
+        "monitors": ["C02"],
+        "rule": "one case per line: K = one tuple (model key vs real key), P = two different tuples of one signature (real keys must differ; for real decorated functions the second call must not be served the first one's entry), FL = float rendering assumptions; distinct lines counted",
+        "level_text": "Lean theorem: for every signature over the nested type grammar (ints, bool, char, str, float, unit, Option, Vec/slices, tuples, Debug-derived structs/tuple structs/enums) and every escaping table, keyOf a = keyOf b implies a = b, proved by a parser that is a left inverse of the Debug rendering (so argument boundaries are unambiguous); without the separator (1,23) and (12,3) collide (kernel-checked). Tied to the code by comparing the model's key with the real key on generated tuples through all four real key paths.",
+        "level_note": MODEL_NOTE + " Assumed (explicit hypotheses): the float printer is injective on non-NaN values, non-empty and uses only [0-9.eE+-infNa]; which non-ASCII chars Rust escapes is a parameter (theorem holds for all). NaNs of different payload share the key `NaN` (excluded by the injectivity hypothesis). User-written CacheableKey impls are outside the property.",
+        "technique": "Lean 4 theorem (parser as left inverse of the renderer) + model-vs-implementation key comparison + collision monitor on real keys",
+        "design_ref": "DESIGN.md §7 C02", "assumptions": ["float Debug injective on non-NaN"],
+    },
+    "C03": {
+        "lean_modules": ["Cachelito.Props.C03"],
+        "streams": [macro_stream(nontrivial=["c03-call"])],
+        "monitors": ["C03"],
+        "rule": "call histories on real generated functions; non-trivial = a call of a function configured without limit/ttl/max_memory/predicates before any invalidation touched it (the configuration the property speaks about)",
+        "level_text": "Lean theorems (sequential histories): in the plain configuration the stored key set equals the set of keys called on that cache instance, the body runs exactly once per distinct key and instance (per thread for thread scope), every repeated call is served the first value without running the body. Tied to the code by execution counters and cache dumps of real generated functions. The clause about concurrently missing callers is covered only by the scheduled runs of C17/C18 (monitor on values), not by a theorem yet.",
+        "level_note": MODEL_NOTE,
+        "technique": TECH, "design_ref": "DESIGN.md §7 C03", "assumptions": ["sequential histories"],
+    },
+    "C14": {
+        "lean_modules": ["Cachelito.Props.C14"],
+        "streams": [macro_stream(nontrivial=["c14-shared-hit", "call"])],
+        "monitors": ["C14"],
+        "rule": "call histories distributed over 3 real threads (thread-scope functions called on any of them, global/async functions too); non-trivial = any call (every call checks the frame: no other instance changes) ",
+        "level_text": "Lean theorems: a call of a thread-scope function changes only the calling thread's instance (all other instances equal), the state and outputs of a thread are determined by its own sub-history (interleaving independence), a thread is never served another thread's value; global/async functions have one instance whatever the calling thread, and a stored, unexpired key is a hit for any thread. Tied to the code with real OS threads and per-thread dumps.",
+        "level_note": MODEL_NOTE + " That thread_local! gives one instance per OS thread is Rust's guarantee: modelled (the index ThreadId), tested, not proved.",
+        "technique": TECH, "design_ref": "DESIGN.md §7 C14", "assumptions": [],
+    },
     "C04": {
         "lean_modules": ["Cachelito.Props.C04"],
         "streams": [core_stream(nontrivial=["eviction", "expiry"], enumerate_=SMALL_SCOPE)],
